@@ -1343,11 +1343,15 @@ func runSession(t *testing.T, cfg *sessCfg, job *sessJob, rng *mrand.Rand, sched
 			}
 		}
 		pre := snap()
+		drained := 0
 		for round := 0; round < 2*(cfg.MaxReq+3)+2; round++ {
 			do(act{ev: "Tick", ag: "A"})
 			do(act{ev: "Tick", ag: "B"})
-			for len(flight) > 0 {
+			for ; len(flight) > 0 && drained < 800; drained++ { // bounded over the whole suffix: a tree that answers every message with another never drains
 				do(act{ev: "Deliver", i: 0})
+			}
+			if drained >= 800 {
+				break
 			}
 			for len(dflight) > 0 {
 				do(act{ev: "DeliverData", i: 0})
